@@ -5,16 +5,19 @@
  "properties": {"C01": "contract", "C05": "contract", "C19": "safety"},
  "mode": "harness",
  "replace_calls": {"castexpr": "stub_castexpr", "mkbinaryexpr": "rec_mkbinaryexpr"},
- "unwind": 6, "unwindset": ["binaryexpr.0:5", "binaryexpr.1:4", "binaryexpr:4"],
+ "unwind": 6,
  "kind": "bounded",
  "bound": "operand (operator operand){0..4} terminator: every sequence of up to 4 binary operators drawn from all 18 C binary operators; called as condexpr() calls it (l == NULL, i == 0, any non-binary-operator terminator) and as it calls itself (left operand given, minimum level that of any operator, terminator any token binding less tightly)",
  "timeout": 600, "replay": false,
  "expects": ["assertion_verif"],
- "assumes": ["next() is a token-script stand-in (SCAN.* / PP.* units); castexpr() is replaced by a stand-in that takes exactly one operand token and returns a fresh leaf (unary/postfix/primary parsing: EXPR.unaryops, EXPR.mkunary, ...); mkbinaryexpr() is replaced by a recorder returning a fresh node (typing and constraints of each operator: EXPR.mkbinary.*)"]
+ "tiers": {"thorough": {"cflags": ["-DNOPS=5"], "unwind": 7, "timeout": 1800, "bound": "as quick, up to 5 operators"}},
+ "assumes": ["the recursive call inside binaryexpr() goes through wrap_binaryexpr() (units/expr_bin/binaryexpr_redirect.h), which calls the real binaryexpr() again and keeps a symbolic-execution budget whose soundness is asserted", "next() is a token-script stand-in (SCAN.* / PP.* units); castexpr() is replaced by a stand-in that takes exactly one operand token and returns a fresh leaf (unary/postfix/primary parsing: EXPR.unaryops, EXPR.mkunary, ...); mkbinaryexpr() is replaced by a recorder returning a fresh node (typing and constraints of each operator: EXPR.mkbinary.*)"]
 }
 */
 #include <stdlib.h>
+#include "binaryexpr_redirect.h"
 #include "expr.c"
+#undef binaryexpr
 #include "verif.h"
 #include "c_exprgram.h"
 
@@ -30,8 +33,8 @@ extern int g_no_error;
 static enum tokenkind s_kind[NTOK];
 static unsigned s_n, s_pos;
 
-void
-next(void)
+static void
+advance(void)
 {
 	__CPROVER_assert(s_pos < s_n, "binaryexpr() does not read past the token that ends the expression");
 	__CPROVER_assume(s_pos < s_n);
@@ -39,6 +42,45 @@ next(void)
 	tok.lit = 0;
 	tok.loc.file = "in.c"; tok.loc.line = 1; tok.loc.col = s_pos;
 	s_pos++;
+}
+
+/*
+ * Symbolic-execution budget (no effect on what is proved).  The shape of the recursion depends on the symbolic
+ * operator kinds, so CBMC would unroll (outer x inner)^depth copies of binaryexpr.  g_lb is a CONCRETE lower bound of
+ * the number of operator tokens consumed so far (s_ops is the exact, symbolic count; g_lb <= s_ops is asserted wherever
+ * g_lb is reset); a copy that would consume operator number NOPS+1 is cut -- after asserting that this cannot happen.
+ */
+static unsigned s_ops, g_lb, g_depth, g_stk[NOPS + 2];
+
+/* next() as binaryexpr() calls it: it consumes an operator token (operands are taken by castexpr()) */
+void
+next(void)
+{
+	s_ops++;
+	g_lb++;
+	if (g_lb > NOPS) {
+		__CPROVER_assert(0, "binaryexpr() takes no more operators than the source has");
+		__CPROVER_assume(0);
+	}
+	g_stk[g_depth] = g_lb;
+	advance();
+}
+
+/* the recursive call of binaryexpr() from its own body: the real function again */
+struct expr *
+wrap_binaryexpr(struct scope *s, struct expr *l, int i)
+{
+	unsigned saved = g_lb;
+	struct expr *e;
+
+	g_depth++;
+	__CPROVER_assert(g_depth <= NOPS, "recursion no deeper than the number of operators");
+	__CPROVER_assume(g_depth <= NOPS);
+	e = binaryexpr(s, l, i);
+	g_depth--;
+	__CPROVER_assert(s_ops >= saved + 1, "a recursive call consumes at least one operator (budget bound sound)");
+	g_lb = saved + 1;
+	return e;
 }
 
 /* ---- leaves and recorded nodes: a phrase is known by the operands it spans ---- */
@@ -67,7 +109,7 @@ stub_castexpr(struct scope *s)
 	if (tok.kind != TIDENT || p % 2 != 0 || p / 2 != g_ncast)
 		g_castok = false;
 	g_ncast++;
-	next();
+	advance();
 	return mknode(p / 2, p / 2, EXPRIDENT);
 }
 
@@ -94,6 +136,7 @@ rec_mkbinaryexpr(struct location *loc, enum tokenkind op, struct expr *l, struct
 	}
 	if (!hit)
 		g_stray++;
+	g_lb = g_stk[g_depth];          /* budget: forget what the recursive calls of this iteration consumed */
 	g_nbin++;
 	return mknode(nfirst(l), nlast(r), EXPRBINARY);
 }
@@ -104,7 +147,7 @@ harness(void)
 	IN(unsigned, in_n); IN(unsigned, in_c1); IN(unsigned, in_c2); IN(unsigned, in_c3); IN(unsigned, in_c4);
 	IN(int, in_term); IN(bool, in_top); IN(unsigned, in_cmin);
 	static struct scope sc;
-	unsigned c[NOPS + 2], p, q;
+	unsigned c[6], p, q;
 	int t[NOPS + 2], tmin, level;
 	struct expr *l, *res;
 
@@ -145,7 +188,8 @@ harness(void)
 	}
 
 	g_no_error = 1;
-	next();                           /* the first token of the phrase is current */
+	s_ops = g_lb = g_depth = 0;
+	advance();                        /* the first token of the phrase is current */
 	l = 0;
 	if (!in_top)
 		l = stub_castexpr(&sc);
